@@ -46,6 +46,13 @@ def run(tier, seed, factor=1):
                 "non-trivial = a form that reads at least one child; distinct by (rule, form)")
     N = common.scale(tier, 7, 9)
     outs = rulecheck.collect(seed * 37 + 10, common.scale(tier, 500, 6000) * factor, N)
+    # one strategy class instantiated with several settings, applied to the same classes in one process (what a rule declares
+    # must depend on the strategy's settings, not only on its type)
+    rulecheck.EXTRA = "peelcut"
+    try:
+        outs += rulecheck.collect(seed * 41 + 3, common.scale(tier, 160, 2000) * factor, N)
+    finally:
+        rulecheck.EXTRA = None
     lines = [o["line"] for o in outs if "line" in o and "exc" not in o]
     lean = common.run_driver("Spec", "\n".join(lines) + "\n") if lines else []
     k = 0
